@@ -6,6 +6,7 @@ mod c02;
 mod c09;
 mod c10;
 mod c11;
+mod c18;
 mod c19;
 mod prog;
 mod rng;
@@ -53,6 +54,7 @@ fn main() {
         "roles" => c09::main(&args),
         "prove" => c10::main(&args),
         "alu" => c11::main(&args),
+        "determinism" => c18::main(&args),
         "failsafe" => c19::main(&args),
         "alusched" => c11::sched_main(&args),
         "shrink" => c02::shrink_main(&args),
